@@ -104,6 +104,8 @@ class Run(object):
         self.ctl = dict(pause_req=False, cancel_req=False, reruns=0, first_terminal=None)
         self.counters = {}
         self.exc = None
+        self.oplog = []
+        self.record_full = False
         self.spec = native_specs.WorkflowSpec(copy.deepcopy(wf))
         self.c = conducting.WorkflowConductor(self.spec, inputs=copy.deepcopy(self.inputs))
         self.last = None
@@ -131,6 +133,15 @@ class Run(object):
         cause = cause or None
         self.violations.append(dict(prop=prop, kind=kind, detail=detail, subject=subject, cause=cause,
                                     step=self.step, label=self.label))
+
+    def _log_op(self, op, extra=None):
+        if not self.record_full:
+            return
+        full = self.c.serialize()
+        o = dict(op=op, status=full["state"]["status"], full=canon(full))
+        if extra is not None:
+            o["extra"] = canon(extra)
+        self.oplog.append(o)
 
     def _notify(self, ev):
         for m in self.monitors:
@@ -168,6 +179,7 @@ class Run(object):
             elif status in ("running", "resuming"):
                 self.ctl["pause_req"] = False
         self.trace.append(("req", status, "ok" if ok else type(ev["exc"]).__name__, ev["post"]["status"]))
+        self._log_op(["req", status], extra=type(ev["exc"]).__name__ if ev["exc"] is not None else None)
         return ev
 
     def _attempt_of(self, task_id, route):
@@ -251,6 +263,8 @@ class Run(object):
                     self.inflight.append({k: r[k] for k in ("task", "route", "item", "attempt", "loop", "uid")})
             if not again:
                 break
+        self._log_op(["poll"], extra=[[o["task"], o["route"], o["item"], o.get("delay"), o.get("input"), o.get("ctx")]
+                                      for o in self.offers[len(self.offers) - total:]] if total else [])
         if total == 0 and not self.inflight and self.exc is None:
             for m in self.monitors:
                 if hasattr(m, "quiescent"):
@@ -287,6 +301,7 @@ class Run(object):
         self._notify(ev)
         self.trace.append(("done", a["task"], a["route"], a["item"], a["attempt"], status,
                            "EXC " + repr(ev["exc"])[:160] if ev["exc"] is not None else ev["post"]["status"]))
+        self._log_op(["done", a["task"], a["route"], a["item"]], extra=repr(ev["exc"])[:200] if ev["exc"] is not None else None)
         return ev
 
     def reset_accum(self, task, route):
@@ -298,6 +313,7 @@ class Run(object):
         ev = self._call("render", [], self.c.render_workflow_output)
         self.trace.append(("render", "EXC " + repr(ev["exc"])[:160] if ev["exc"] is not None else ev["post"]["status"],
                            ev["post"]["output"]))
+        self._log_op(["render"], extra=repr(ev["exc"])[:200] if ev["exc"] is not None else None)
         return ev
 
     def rerun(self, reqs=None):
@@ -314,6 +330,7 @@ class Run(object):
             self.ctl["cancel_req"] = False
             self.ctl["pause_req"] = False
         self.trace.append(("rerun", reqs, "ok" if ev["exc"] is None else type(ev["exc"]).__name__, ev["post"]["status"]))
+        self._log_op(["rerun"], extra=type(ev["exc"]).__name__ if ev["exc"] is not None else None)
         return ev
 
     def crash(self):
@@ -322,6 +339,9 @@ class Run(object):
         self.script.append(["crash"])
         data = self.c.serialize()
         c2 = conducting.WorkflowConductor.deserialize(data)
+        for m in self.monitors:
+            if hasattr(m, "on_crash"):
+                m.on_crash(self, data, c2)
         self.c = c2
         self.spec = c2.spec
         self.count("crashes")
